@@ -46,6 +46,7 @@ impl Generator {
         let mut rng = Rng::new(seed);
         let length = match profile {
             "boundary" => 10 + rng.below(40) as usize,
+            "bigbuf" => 120 + rng.below(200) as usize,
             _ => { let long = rng.chance(20); 20 + rng.below(if long { 380 } else { 120 }) as usize }
         };
         let keys = match profile { "pressure" => rng.pick(&[6u64, 8, 12, 16]), _ => rng.pick(&[2u64, 3, 5, 8]) };
@@ -70,8 +71,9 @@ impl Generator {
             max,
             shards: rng.pick(&[2usize, 2, 4, 256]),
             cmdcap: match profile { "burst" => rng.pick(&[1usize, 1, 2, 3]), _ => rng.pick(&[1usize, 2, 4, 64, 32768]) },
-            pool: rng.pick(&[1usize, 1, 2, 3]),
-            buf: match profile { "reads" | "pressure" => rng.pick(&[1usize, 1, 2, 3]), _ => rng.pick(&[1usize, 2, 3, 64]) },
+            pool: if profile == "bigbuf" { 1 } else { rng.pick(&[1usize, 1, 2, 3]) },
+            // "bigbuf": buffers beyond the default 64 records, not all multiples of it (a hand-over must carry the whole buffer)
+            buf: match profile { "reads" | "pressure" => rng.pick(&[1usize, 1, 2, 3]), "bigbuf" => rng.pick(&[65usize, 100, 128, 150]), _ => rng.pick(&[1usize, 2, 3, 64]) },
             counters: match profile { "boundary" => rng.pick(&[1u64, 2, 3]), "reads" => rng.pick(&[1u64, 2, 3, 5, 16]), _ => rng.pick(&[1u64, 2, 3, 10, 16, 100]) },
             hash: rng.pick(&[0u64, 0, 1, 2]),
             wbase: rng.pick(&[1i64, 1, 2, 5]),
@@ -178,6 +180,7 @@ impl Generator {
             "ttl" => (35, 15, 15, 15, 2, 15),
             "burst" => (50, 10, 25, 3, 2, 3),
             "reads" => (15, 55, 8, 2, 15, 2),
+            "bigbuf" => (12, 62, 10, 1, 12, 1),
             "boundary" => (50, 10, 25, 5, 2, 5),
             "nopressure" => (35, 25, 15, 8, 5, 8),
             _ => (35, 25, 15, 6, 6, 6),
@@ -196,6 +199,12 @@ impl Generator {
             bound += p_read;
             if roll < bound {
                 if free.is_none() { continue; }
+                if self.profile == "bigbuf" && self.rng.chance(80) {
+                    // many records per call: an iterator read over 8-24 positions
+                    let positions = 8 + self.rng.below(17);
+                    let keys: Vec<u64> = (0..positions).map(|_| self.rng.below(self.keys)).collect();
+                    return Some(Ev::MGet(keys, 1 + self.rng.below(2) as u8));
+                }
                 if self.rng.chance(85) { return Some(Ev::Get(self.key(), self.rng.below(4) as u8)); }
                 let mut keys: Vec<u64> = (0..self.keys).filter(|_| self.rng.chance(60)).collect();
                 if self.rng.chance(50) { keys.reverse(); }
